@@ -132,6 +132,16 @@ func (_this *structBuilder) swapKeyValue() {
 	_this.nextIsKey = !_this.nextIsKey
 }
 
+// Only a string key can name a field. Any other key is skipped together with
+// its value, like a string key that matches no field.
+func (_this *structBuilder) tryIgnoreNonStringKey(ctx *Context) bool {
+	if _this.nextIsKey {
+		ctx.StackBuilder(globalIgnoreBuilder)
+		return true
+	}
+	return false
+}
+
 func (_this *structBuilder) BuildFromNull(ctx *Context, _ reflect.Value) reflect.Value {
 	_this.nextBuilderGenerator(ctx).BuildFromNull(ctx, _this.nextValue)
 	object := _this.nextValue
@@ -139,63 +149,90 @@ func (_this *structBuilder) BuildFromNull(ctx *Context, _ reflect.Value) reflect
 	return object
 }
 
-func (_this *structBuilder) BuildFromBool(ctx *Context, value bool, _ reflect.Value) reflect.Value {
+func (_this *structBuilder) BuildFromBool(ctx *Context, value bool, dst reflect.Value) reflect.Value {
+	if _this.tryIgnoreNonStringKey(ctx) {
+		return dst
+	}
 	_this.nextBuilderGenerator(ctx).BuildFromBool(ctx, value, _this.nextValue)
 	object := _this.nextValue
 	_this.swapKeyValue()
 	return object
 }
 
-func (_this *structBuilder) BuildFromInt(ctx *Context, value int64, _ reflect.Value) reflect.Value {
+func (_this *structBuilder) BuildFromInt(ctx *Context, value int64, dst reflect.Value) reflect.Value {
+	if _this.tryIgnoreNonStringKey(ctx) {
+		return dst
+	}
 	_this.nextBuilderGenerator(ctx).BuildFromInt(ctx, value, _this.nextValue)
 	object := _this.nextValue
 	_this.swapKeyValue()
 	return object
 }
 
-func (_this *structBuilder) BuildFromUint(ctx *Context, value uint64, _ reflect.Value) reflect.Value {
+func (_this *structBuilder) BuildFromUint(ctx *Context, value uint64, dst reflect.Value) reflect.Value {
+	if _this.tryIgnoreNonStringKey(ctx) {
+		return dst
+	}
 	_this.nextBuilderGenerator(ctx).BuildFromUint(ctx, value, _this.nextValue)
 	object := _this.nextValue
 	_this.swapKeyValue()
 	return object
 }
 
-func (_this *structBuilder) BuildFromBigInt(ctx *Context, value *big.Int, _ reflect.Value) reflect.Value {
+func (_this *structBuilder) BuildFromBigInt(ctx *Context, value *big.Int, dst reflect.Value) reflect.Value {
+	if _this.tryIgnoreNonStringKey(ctx) {
+		return dst
+	}
 	_this.nextBuilderGenerator(ctx).BuildFromBigInt(ctx, value, _this.nextValue)
 	object := _this.nextValue
 	_this.swapKeyValue()
 	return object
 }
 
-func (_this *structBuilder) BuildFromFloat(ctx *Context, value float64, _ reflect.Value) reflect.Value {
+func (_this *structBuilder) BuildFromFloat(ctx *Context, value float64, dst reflect.Value) reflect.Value {
+	if _this.tryIgnoreNonStringKey(ctx) {
+		return dst
+	}
 	_this.nextBuilderGenerator(ctx).BuildFromFloat(ctx, value, _this.nextValue)
 	object := _this.nextValue
 	_this.swapKeyValue()
 	return object
 }
 
-func (_this *structBuilder) BuildFromBigFloat(ctx *Context, value *big.Float, _ reflect.Value) reflect.Value {
+func (_this *structBuilder) BuildFromBigFloat(ctx *Context, value *big.Float, dst reflect.Value) reflect.Value {
+	if _this.tryIgnoreNonStringKey(ctx) {
+		return dst
+	}
 	_this.nextBuilderGenerator(ctx).BuildFromBigFloat(ctx, value, _this.nextValue)
 	object := _this.nextValue
 	_this.swapKeyValue()
 	return object
 }
 
-func (_this *structBuilder) BuildFromDecimalFloat(ctx *Context, value compact_float.DFloat, _ reflect.Value) reflect.Value {
+func (_this *structBuilder) BuildFromDecimalFloat(ctx *Context, value compact_float.DFloat, dst reflect.Value) reflect.Value {
+	if _this.tryIgnoreNonStringKey(ctx) {
+		return dst
+	}
 	_this.nextBuilderGenerator(ctx).BuildFromDecimalFloat(ctx, value, _this.nextValue)
 	object := _this.nextValue
 	_this.swapKeyValue()
 	return object
 }
 
-func (_this *structBuilder) BuildFromBigDecimalFloat(ctx *Context, value *apd.Decimal, _ reflect.Value) reflect.Value {
+func (_this *structBuilder) BuildFromBigDecimalFloat(ctx *Context, value *apd.Decimal, dst reflect.Value) reflect.Value {
+	if _this.tryIgnoreNonStringKey(ctx) {
+		return dst
+	}
 	_this.nextBuilderGenerator(ctx).BuildFromBigDecimalFloat(ctx, value, _this.nextValue)
 	object := _this.nextValue
 	_this.swapKeyValue()
 	return object
 }
 
-func (_this *structBuilder) BuildFromUID(ctx *Context, value []byte, _ reflect.Value) reflect.Value {
+func (_this *structBuilder) BuildFromUID(ctx *Context, value []byte, dst reflect.Value) reflect.Value {
+	if _this.tryIgnoreNonStringKey(ctx) {
+		return dst
+	}
 	_this.nextBuilderGenerator(ctx).BuildFromUID(ctx, value, _this.nextValue)
 	object := _this.nextValue
 	_this.swapKeyValue()
@@ -221,6 +258,9 @@ func (_this *structBuilder) BuildFromArray(ctx *Context, arrayType events.ArrayT
 			_this.nextBuilderGenerator(ctx).BuildFromArray(ctx, arrayType, value, _this.nextValue)
 		}
 	default:
+		if _this.tryIgnoreNonStringKey(ctx) {
+			return rv
+		}
 		_this.nextBuilderGenerator(ctx).BuildFromArray(ctx, arrayType, value, _this.nextValue)
 	}
 	object := _this.nextValue
@@ -247,6 +287,9 @@ func (_this *structBuilder) BuildFromStringlikeArray(ctx *Context, arrayType eve
 			_this.nextBuilderGenerator(ctx).BuildFromStringlikeArray(ctx, arrayType, value, _this.nextValue)
 		}
 	default:
+		if _this.tryIgnoreNonStringKey(ctx) {
+			return rv
+		}
 		_this.nextBuilderGenerator(ctx).BuildFromStringlikeArray(ctx, arrayType, value, _this.nextValue)
 	}
 	object := _this.nextValue
@@ -275,7 +318,10 @@ func (_this *structBuilder) BuildFromMedia(ctx *Context, mediaType string, data 
 	return object
 }
 
-func (_this *structBuilder) BuildFromTime(ctx *Context, value compact_time.Time, _ reflect.Value) reflect.Value {
+func (_this *structBuilder) BuildFromTime(ctx *Context, value compact_time.Time, dst reflect.Value) reflect.Value {
+	if _this.tryIgnoreNonStringKey(ctx) {
+		return dst
+	}
 	_this.nextBuilderGenerator(ctx).BuildFromTime(ctx, value, _this.nextValue)
 	object := _this.nextValue
 	_this.swapKeyValue()
